@@ -14,6 +14,7 @@ FileSeq2 == <<"f1.xsd", "f2.xsd">>
 NoExtras == {<<>>}
 AllExtras == {<<>>, <<"wk">>, <<"noloc">>, <<"missing">>, <<"wk", "noloc">>}
 Sib3 == <<"valid", "malformed", "nonschema">>
+NoSib == <<>>
 
 UriOf == [f \in {"f1.xsd", "f2.xsd", "f3.xsd", "f4.xsd"} |->
             CASE f = "f1.xsd" -> "Ualpha" [] f = "f2.xsd" -> "Ubravo" [] f = "f3.xsd" -> "Ucharlie" [] OTHER -> "Udelta"]
@@ -23,7 +24,9 @@ TypeOf == [f \in {"f1.xsd", "f2.xsd", "f3.xsd", "f4.xsd"} |->
 Vocab == [names |-> [TypeAlpha |-> [xml |-> "TypeAlpha", pascal |-> "TypeAlpha"],
                      TypeBravo |-> [xml |-> "TypeBravo", pascal |-> "TypeBravo"],
                      TypeCharlie |-> [xml |-> "TypeCharlie", pascal |-> "TypeCharlie"],
-                     TypeDelta |-> [xml |-> "TypeDelta", pascal |-> "TypeDelta"]],
+                     TypeDelta |-> [xml |-> "TypeDelta", pascal |-> "TypeDelta"],
+                     ElemAlpha |-> [xml |-> "ElemAlpha", pascal |-> "ElemAlpha"], ElemBravo |-> [xml |-> "ElemBravo", pascal |-> "ElemBravo"],
+                     ElemCharlie |-> [xml |-> "ElemCharlie", pascal |-> "ElemCharlie"], ElemDelta |-> [xml |-> "ElemDelta", pascal |-> "ElemDelta"]],
           uris |-> [Ualpha |-> [uri |-> "http://zv.test/c11/alpha"],
                     Ubravo |-> [uri |-> "http://zv.test/c11/bravo"],
                     Ucharlie |-> [uri |-> "http://zv.test/c11/charlie"],
@@ -46,16 +49,27 @@ ImportItem(t) == CASE t \in File -> [k |-> "import", ns |-> UriOf[t], loc |-> t]
                    [] OTHER -> [k |-> "import", ns |-> "Uext", loc |-> "nowhere.xsd"]
 
 Member == [k |-> "el", n |-> "value", ty |-> [k |-> "builtin", n |-> "string"], min |-> 1, max |-> "1"]
+PrefixOf == [f \in {"f1.xsd", "f2.xsd", "f3.xsd", "f4.xsd"} |->
+               CASE f = "f1.xsd" -> "pa" [] f = "f2.xsd" -> "pb" [] f = "f3.xsd" -> "pc" [] OTHER -> "pd"]
+ElemOf == [f \in {"f1.xsd", "f2.xsd", "f3.xsd", "f4.xsd"} |->
+               CASE f = "f1.xsd" -> "ElemAlpha" [] f = "f2.xsd" -> "ElemBravo" [] f = "f3.xsd" -> "ElemCharlie" [] OTHER -> "ElemDelta"]
+\* with RefsOn the type of a file refers to the global element of every other file it imports directly
+RefTargets(f) == SelectSeq(FileSeq, LAMBDA t : t # f /\ \E i \in 1..Len(g[f]) : g[f][i] = t)
+RefMembers(f) == IF RefsOn THEN [i \in 1..Len(RefTargets(f)) |->
+                                   [k |-> "ref", ref |-> [p |-> PrefixOf[RefTargets(f)[i]], n |-> ElemOf[RefTargets(f)[i]]], min |-> 0, max |-> "1"]]
+                 ELSE <<>>
 TypeItem(f) == [k |-> "complex", n |-> TypeOf[f],
-                content |-> << [k |-> "seq", min |-> 1, max |-> "1", ps |-> <<Member>>] >>, attrs |-> <<>>]
+                content |-> << [k |-> "seq", min |-> 1, max |-> "1", ps |-> <<Member>> \o RefMembers(f)] >>, attrs |-> <<>>]
+ElemItem(f) == [k |-> "element", n |-> ElemOf[f], inline |-> [content |-> << [k |-> "seq", min |-> 1, max |-> "1", ps |-> <<Member>>] >>, attrs |-> <<>>]]
 
-FileRec(f) == [name |-> f, kind |-> "xsd", tns |-> UriOf[f], xmlns |-> <<>>,
-               items |-> [i \in 1..Len(g[f]) |-> ImportItem(g[f][i])] \o <<TypeItem(f)>>]
+FileRec(f) == [name |-> f, kind |-> "xsd", tns |-> UriOf[f],
+               xmlns |-> IF RefsOn THEN [i \in 1..Len(FileSeq) |-> <<PrefixOf[FileSeq[i]], UriOf[FileSeq[i]]>>] ELSE <<>>,
+               items |-> [i \in 1..Len(g[f]) |-> ImportItem(g[f][i])] \o (IF RefsOn THEN <<ElemItem(f)>> ELSE <<>>) \o <<TypeItem(f)>>]
 
 CaseOf == [prop |-> "C11", drv |-> "c11", start |-> start, g |-> g,
            files |-> [i \in 1..Len(FileSeq) |-> FileRec(FileSeq[i])],
            types |-> [f \in File |-> TypeOf[f]],
-           siblings |-> Siblings, ncalls |-> MaxCalls]
+           siblings |-> Siblings, ncalls |-> MaxCalls, refs |-> RefsOn]
 
 EmitCase == (pc = "idle" /\ calls = 0) => PrintT(<<"CASE", ToJson(CaseOf)>>)
 =======================================================================
